@@ -435,11 +435,10 @@ def normalize(raw, job="main"):
         elif a == "result_written":
             add("SaveResult")
         elif a == "returned":
-            s["returned"] = True
-            add("Return")
+            s["returned"] = True       # Job.run is about to return; the call's outcome follows (final lock-free read)
         elif a == "call_returned":
-            if not s["returned"] and s["last"] is not None:
-                add("Return")          # cache-hit path: no `returned` point
+            if s["last"] is not None:
+                add("Return", ok=True)
             s["last"] = None
         elif a == "call_raised":
             if s["holds"]:
@@ -448,7 +447,10 @@ def normalize(raw, job="main"):
                     holder = None
                 out.append({"a": "Release", "p": p})
             if s["last"] is not None:
-                add("RaiseOut")
+                if s["returned"] or s["last"] == "Release":
+                    add("Return", ok=False)      # the run itself ended normally: the final read found no result
+                else:
+                    add("RaiseOut")
             s["last"] = None
         elif a == "CRASH":
             dead.add(p)
